@@ -196,3 +196,167 @@ Definition parse_expr (lv : list level) (un : list (optok * unop)) (fuel : nat)
   | POk e r => Some (e, r)
   | _ => None
   end.
+
+(* ============================================================================================ *)
+(* Printer with minimal parentheses                                                             *)
+(* ============================================================================================ *)
+
+Fixpoint find_in_level (b : binop) (ops : level) : option optok :=
+  match ops with
+  | [] => None
+  | (o, b') :: tl => if binop_eqb b b' then Some o else find_in_level b tl
+  end.
+
+(* position (index of the level, tightest = 0) and token of a binary constructor *)
+Fixpoint find_bin (b : binop) (lv : list level) (j : nat) : option (nat * optok) :=
+  match lv with
+  | [] => None
+  | ops :: tl =>
+      match find_in_level b ops with
+      | Some o => Some (j, o)
+      | None => find_bin b tl (S j)
+      end
+  end.
+
+Fixpoint find_un (u : unop) (tbl : list (optok * unop)) : option optok :=
+  match tbl with
+  | [] => None
+  | (o, u') :: tl => if unop_eqb u u' then Some o else find_un u tl
+  end.
+
+Section Printer.
+  Variable lvls : list level.
+  Variable unops : list (optok * unop).
+
+  Definition bin_pos (b : binop) : nat * optok :=
+    match find_bin b lvls 0 with Some p => p | None => (0, ADD) end.
+  Definition un_tok (u : unop) : optok :=
+    match find_un u unops with Some o => o | None => ADD end.
+
+  (* Rule numbers as in grammar.py: 0 primary, 1 postfix, 2 unary, 3 `is`, 4+j the j-th binary
+     level, 4 + number of levels = ps_expr (`??`). *)
+  Definition topk : nat := 4 + length lvls.
+
+  Definition level_of (e : expr) : nat :=
+    match e with
+    | EInt _ | EBool _ | EVar _ => 0
+    | ELen _ | EIdx _ _ => 1
+    | EUn _ _ => 2
+    | EIs _ _ _ => 3
+    | EBin b _ _ => 4 + fst (bin_pos b)
+    | ESpec _ _ => topk
+    end.
+
+  (* parenthesise the already printed child `ts` of `e` iff `e` is looser than the position
+     (rule k) admits *)
+  Definition wrap (k : nat) (e : expr) (ts : list token) : list token :=
+    if level_of e <=? k then ts else TLParen :: ts ++ [TRParen].
+
+  Fixpoint tokens (e : expr) : list token :=
+    match e with
+    | EInt z => [TInt z]
+    | EBool b => [TBool b]
+    | EVar i => [TId i]
+    | EUn u a => TOp (un_tok u) :: wrap 2 a (tokens a)
+    | EIs a t arr =>
+        wrap 2 a (tokens a) ++ TOp IS :: TType t :: (if arr then [TLSquare; TRSquare] else [])
+    | EBin b l r =>
+        let (j, o) := bin_pos b in
+        wrap (4 + j) l (tokens l) ++ TOp o :: wrap (3 + j) r (tokens r)
+    | ESpec l r =>
+        wrap (topk - 1) l (tokens l) ++ TOp SPECULATION :: wrap (topk - 1) r (tokens r)
+    | ELen a => wrap 1 a (tokens a) ++ [TDot; TId length_id]
+    | EIdx a i => wrap 1 a (tokens a) ++ TLSquare :: tokens i ++ [TRSquare]
+    end.
+
+  Definition pr (k : nat) (e : expr) : list token := wrap k e (tokens e).
+End Printer.
+
+(* ============================================================================================ *)
+(* The documented table (README.rst, section "Operators", "In order of precedence")             *)
+(* ============================================================================================ *)
+
+Definition all_optoks : list optok :=
+  [ADD; SUB; MUL; DIV; MOD; EQ; NE; LT; GT; LE; GE; OR; AND; NOT; IS; SPECULATION].
+
+(* order inside one level carries no meaning: list the entries in OpToken member order *)
+Definition canon_level {A : Type} (ops : list (optok * A)) : list (optok * A) :=
+  flat_map (fun o => match lookup o ops with Some b => [(o, b)] | None => [] end) all_optoks.
+
+Module Spec.
+  (*  * Unary ``+``, ``-``, ``not``  *)
+  Definition readme_unary : list (optok * unop) := [(ADD, Pos); (SUB, Neg); (NOT, Not)].
+  (*  * ``is`` (typecast pseudo-operator)          -- between unary and the binary levels      *)
+  Definition readme_binary : list level :=
+    [ (*  * ``*``, ``/``, ``%``                       *) [(MUL, Mul); (DIV, Div); (MOD, Mod)];
+      (*  * ``+``, ``-``                              *) [(ADD, Add); (SUB, Sub)];
+      (*  * ``==``, ``!=``, ``<``, ``<=``, ``>``, ``>=`` *)
+        [(EQ, Eq); (NE, Ne); (LT, Lt); (LE, Le); (GT, Gt); (GE, Ge)];
+      (*  * ``and``                                   *) [(AND, And)];
+      (*  * ``or``                                    *) [(OR, Or)] ].
+  (*  * ``??`` (speculation)                        -- loosest                                  *)
+
+  Definition documented_levels : list level := map canon_level readme_binary.
+  Definition documented_unary : list (optok * unop) := canon_level readme_unary.
+
+  (* The rest of the property text, as the shape record of ExprSyntax.v: unary binds tighter than
+     `is` (operand of `is` at the unary rule), `is` tighter than every binary level (the tightest
+     binary level calls the `is` rule), binary levels nest in table order and fold to the left,
+     `??` loosest with both operands one rule tighter, postfix on top of primaries, parentheses
+     and index brackets restart at the loosest rule. *)
+  Definition documented_shape : ladder_shape := {|
+    sh_paren_inner       := RTop;
+    sh_postfix_rule      := 1;
+    sh_postfix_base      := R 0;
+    sh_postfix_forms     := [PfLength; PfIndex];
+    sh_postfix_loops     := true;
+    sh_index_inner       := RTop;
+    sh_unary_rule        := 2;
+    sh_unary_operand     := R 2;
+    sh_unary_fallthrough := R 1;
+    sh_is_rule           := 3;
+    sh_is_operand        := R 2;
+    sh_is_chains         := false;
+    sh_is_array_suffix   := true;
+    sh_bin_chain         := [(4, 3); (5, 4); (6, 5); (7, 6); (8, 7)];
+    sh_bin_assoc         := AssocLeft;
+    sh_spec_first        := R 8;
+    sh_spec_left         := R 8;
+    sh_spec_right        := R 8;
+    sh_spec_chains       := false
+  |}.
+End Spec.
+
+(* ============================================================================================ *)
+(* Well-formedness of a table (decidable; holds of the regenerated one by computation)          *)
+(* ============================================================================================ *)
+
+Definition keys_of {A : Type} (tbl : list (optok * A)) : list optok := map fst tbl.
+Definition mem_op (o : optok) (l : list optok) : bool := existsb (optok_eqb o) l.
+
+(* is `o` a key of one of the first j levels? *)
+Definition in_levels_below (lv : list level) (j : nat) (o : optok) : bool :=
+  existsb (fun ops => mem_op o (keys_of ops)) (firstn j lv).
+
+Definition bin_ok (lv : list level) (b : binop) : bool :=
+  match find_bin b lv 0 with
+  | Some (j, o) =>
+      match lookup o (nth j lv []) with
+      | Some b' => binop_eqb b b'
+      | None => false
+      end
+      && negb (in_levels_below lv j o)
+      && negb (optok_eqb o IS)
+  | None => false
+  end.
+
+Definition un_ok (un : list (optok * unop)) (u : unop) : bool :=
+  match find_un u un with
+  | Some o => match lookup o un with Some u' => unop_eqb u u' | None => false end
+  | None => false
+  end.
+
+Definition table_ok (lv : list level) (un : list (optok * unop)) : bool :=
+  forallb (bin_ok lv) all_binops
+  && forallb (un_ok un) all_unops
+  && negb (in_levels_below lv (length lv) SPECULATION).
